@@ -1,9 +1,183 @@
-import StraxModel.Driver.Parse
-namespace Strax.Driver
-open Strax
+import StraxModel.Driver.C03
+import StraxModel.Model.Copy
+namespace Strax.Driver.C16
+open Strax Strax.Storage Strax.Copy Strax.Driver Strax.Driver.C03
 
-/-- ops of property C16 (stub: no ops yet) -/
+def a0 : Int := Generated.getSplitsArgmin0
+
+def showDir : Option Dir → String
+  | none => "absent"
+  | some (m, fs) => s!"{showMeta m} ## {showFiles fs}"
+
+def showLoaded (r : Except Err (List Chunk)) : String := showExcept showChunks r
+
+def showErrOpt : Option Err → String
+  | none => "-"
+  | some e => e.name
+
+/-- `-` = None -/
+def parseNatOpt (s : String) : Option (Option Nat) :=
+  if s == "-" then some none else s.toNat?.map some
+
+/-- `a+b+c` -/
+def parsePlusNats (s : String) : Option (List Nat) :=
+  if s == "-" || s.isEmpty then some [] else (s.splitOn "+").mapM (·.toNat?)
+
+/-- the harness plugin `Tgt`: keeps the rows whose id is not a multiple of `m`, relabels the chunk -/
+def tgtCompute (dataType : String) (target : Nat) (m : Nat) (c : Chunk) : Except Err Chunk :=
+  pure (filterChunk dataType target (fun r => r.id % m != 0) c)
+
+def getAll {α : Type} (l : List α) : List Nat → Option (List α)
+  | [] => some []
+  | i :: is => do
+    let a ← l[i]?
+    let b ← getAll l is
+    pure (a :: b)
+
+/-- the chunk numbers of each group, given the group sizes -/
+def groupNumbers : Nat → List Nat → List (List Nat)
+  | _, [] => []
+  | k, n :: ns => (List.range n).map (· + k) :: groupNumbers (k + n) ns
+
+/-- `provide:dep+dep` -/
+def parseEntry (s : String) : Option Entry :=
+  match s.splitOn ":" with
+  | [p, ds] => some { provide := p, deps := if ds == "-" then [] else ds.splitOn "+", cfg := [], chunkNumber := [] }
+  | _ => none
+
+/-- `d=0+1&e=2`, `-` = no chunk_number at all -/
+def parseRequest (s : String) : Option (Option (List (String × List Nat))) :=
+  if s == "-" then some none
+  else do
+    let items ← (s.splitOn "&").mapM fun it =>
+      match it.splitOn "=" with
+      | [d, g] => do pure (d, ← parsePlusNats g)
+      | _ => none
+    pure (some items)
+
+/-- index of the first equal element -/
+def classIndex (seen : List Lineage) (l : Lineage) : Nat × List Lineage :=
+  match seen.findIdx? (· == l) with
+  | some i => (i, seen)
+  | none => (seen.length, seen ++ [l])
+
+def showClasses : List (Except Err Lineage) → List Lineage → List String
+  | [], _ => []
+  | .error e :: rest, seen => e.name :: showClasses rest seen
+  | .ok l :: rest, seen =>
+    let (i, seen') := classIndex seen l
+    toString i :: showClasses rest seen'
+
+end Strax.Driver.C16
+
+namespace Strax.Driver
+open Strax Strax.Storage Strax.Copy Strax.Driver.C03 Strax.Driver.C16
+
+/-- ops of property C16.  The stored layout is given as raw chunks; the source directory is what
+the plain saver makes of them (`saveAll … false`).
+
+`c16.copy <rechunk> <rechunkTo> <runId> <dataType> <kind> <target> <pfx> <rawchunk>*`
+  → `ok <meta> ## <files> ## <loaded>` of the destination
+`c16.rechunk <replace> <rechunk> <target|-> <aliased> <runId> <dataType> <kind> <hdrTarget> <pfx> <rawchunk>*`
+  → `<op kinds> ## e=<Err|-> ## src=<dir|absent> ## dst=<dir|absent> ## tmp=<…> ## <loaded from where the result lives>`
+`c16.rol <sourceSize> <runId> <dataType> <kind> <target> <pfx> <rawchunk>*` → `ok <chunks>`
+`c16.merge <rechunkOnSave> <rechunk> <rechunkTo> <mod> <runId> <tgtType> <tgtTarget> <tgtPfx> <sizes a+b> <jobPfx,…> <selection i+j> <srcTarget> <srcPfx> <rawchunk>*`
+  → `ok key=<plain|a+b|Err> ## <meta> ## <files> ## <loaded>`
+`c16.keys <entry,entry> <request>*` → `ok <class|Err> …` -/
 def handleC16 : List String → Option String
+  | "c16.copy" :: rechunk :: rechunkTo :: rid :: dt :: kind :: target :: pfx :: cs => do
+    let re ← parseBool rechunk
+    let rt ← rechunkTo.toNat?
+    let tg ← target.toNat?
+    let cs ← cs.mapM parseRawChunk
+    let hdr : Header := { runId := rid, dataType := dt, kind := kind, target := tg, pfx := pfx }
+    match rawChunksToChunks cs >>= saveAll a0 false hdr with
+    | .error e => pure s!"err-source {e.name}"
+    | .ok src =>
+      match copyData a0 src re rt with
+      | .error e => pure s!"err {e.name}"
+      | .ok d => pure s!"ok {showDir (some d)} ## {showLoaded (loadDir d)}"
+  | "c16.rechunk" :: replace :: rechunk :: target :: aliased :: rid :: dt :: kind :: hdrTarget :: pfx :: cs => do
+    let rp ← parseBool replace
+    let re ← parseBool rechunk
+    let tg ← parseNatOpt target
+    let al ← parseBool aliased
+    let ht ← hdrTarget.toNat?
+    let cs ← cs.mapM parseRawChunk
+    let hdr : Header := { runId := rid, dataType := dt, kind := kind, target := ht, pfx := pfx }
+    match rawChunksToChunks cs >>= saveAll a0 false hdr with
+    | .error e => pure s!"err-source {e.name}"
+    | .ok src =>
+      let st : Store := { src := some src, tmp := none, dst := none, aliased := al }
+      let (ops, e) := rechunkPlan a0 destGuard st rp re tg
+      let fin := runOps st ops
+      let result := if rp || al then fin.src else fin.dst
+      let loaded := match result with
+        | some d => showLoaded (loadDir d)
+        | none => "absent"
+      pure s!"{" ".intercalate (ops.map FsOp.kind)} ## e={showErrOpt e} ## src={showDir fin.src} ## dst={showDir fin.dst} ## tmp={if fin.tmp.isSome then "present" else "absent"} ## {loaded}"
+  | "c16.rol" :: size :: rid :: dt :: kind :: target :: pfx :: cs => do
+    let sz ← size.toNat?
+    let tg ← target.toNat?
+    let cs ← cs.mapM parseRawChunk
+    let hdr : Header := { runId := rid, dataType := dt, kind := kind, target := tg, pfx := pfx }
+    match rawChunksToChunks cs >>= saveAll a0 false hdr with
+    | .error e => pure s!"err-source {e.name}"
+    | .ok src => pure (showLoaded (rechunkOnLoadExec true true a0 sz src))
+  | "c16.merge" :: ros :: rechunk :: rechunkTo :: m :: rid :: tdt :: ttarget :: tpfx :: sizes :: jobPfx :: sel ::
+      starget :: spfx :: cs => do
+    let ros ← parseBool ros
+    let re ← parseBool rechunk
+    let rt ← rechunkTo.toNat?
+    let m ← m.toNat?
+    let tt ← ttarget.toNat?
+    let sizes ← parsePlusNats sizes
+    let sel ← parsePlusNats sel
+    let stg ← starget.toNat?
+    let jp := splitList jobPfx ","
+    let cs ← cs.mapM parseRawChunk
+    match rawChunksToChunks cs with
+    | .error e => pure s!"err-source {e.name}"
+    | .ok cs =>
+      let kind := (cs.head?.map (·.kind)).getD "k"
+      let shdr : Header := { runId := rid, dataType := (cs.head?.map (·.dataType)).getD "src", kind := kind, target := stg, pfx := spfx }
+      -- the dependency as stored and loaded back (what the per-chunk loader yields)
+      match saveAll a0 false shdr cs >>= loadDir with
+      | .error e => pure s!"err-source {e.name}"
+      | .ok dep =>
+        let groups := splitGroups sizes dep
+        let hdrs := jp.map fun p => ({ runId := rid, dataType := tdt, kind := kind, target := tt, pfx := p } : Header)
+        let thdr : Header := { runId := rid, dataType := tdt, kind := kind, target := tt, pfx := tpfx }
+        match runJobs a0 (tgtCompute tdt tt m) ros hdrs groups with
+        | .error e => pure s!"err-job {e.name}"
+        | .ok jobs =>
+          let jobs' ← getAll jobs sel
+          let nums ← getAll (groupNumbers 0 sizes) sel
+          -- `key_for(run, target, chunk_number=_chunk_number)` checks that the combined numbers are consecutive
+          let key : Except Err String := match mergeChunkNumber dep.length nums with
+            | .error e => .error e
+            | .ok none => .ok "plain"
+            | .ok (some l) => if consecutive l then .ok ("+".intercalate (l.map toString)) else .error Err.valueError
+          match key with
+          | .error e => pure s!"err {e.name}"
+          | .ok key =>
+            match perChunkMerge a0 jobs' re rt thdr with
+            | .error e => pure s!"err {e.name}"
+            | .ok d => pure s!"ok key={key} ## {showDir (some d)} ## {showLoaded (loadDir d)}"
+  | "c16.mergekey" :: n :: groups => do
+    let n ← n.toNat?
+    let gs ← groups.mapM parsePlusNats
+    pure <| match mergeChunkNumber n gs with
+      | .error e => s!"err {e.name}"
+      | .ok none => "ok plain"
+      | .ok (some l) => "ok " ++ "+".intercalate (l.map toString)
+  | "c16.keys" :: entries :: reqs => do
+    let lin ← (entries.splitOn ",").mapM parseEntry
+    let reqs ← reqs.mapM parseRequest
+    let res := reqs.map fun r => match r with
+      | none => (.ok lin : Except Err Lineage)
+      | some cn => tagLineage cn lin
+    pure ("ok " ++ " ".intercalate (showClasses res []))
   | _ => none
 
 end Strax.Driver
